@@ -1026,6 +1026,11 @@ func (env *SpecEnv) evalCall(e *SExpr) TV {
 				if t.Sort == SInt && leafSort(tn.Type()) == SReal {
 					return TV{&VS{mkApp("to_real", SReal, t)}, tn.Type()}
 				}
+				if t.Sort == SReal && leafSort(tn.Type()) == SInt {
+					// same model as the executable conversion: truncation toward zero of the real, then wrap
+					trunc := mkIte(mkCmp(">=", t, mkReal("0.0")), mkApp("to_int", SInt, t), mkNeg(mkApp("to_int", SInt, mkApp("-", SReal, t))))
+					return TV{&VS{wrapTo(trunc, tn.Type())}, tn.Type()}
+				}
 				return TV{&VS{t}, tn.Type()}
 			}
 		}
